@@ -609,6 +609,10 @@ struct Run
       sink.emit(e);
     } else if (op == "end") {
       objs.clear();
+    } else if (op == "reshape") {
+      // later values of this history are sampled with another structural code (container size, variant alternative,
+      // fixed dimensions): objects of DIFFERENT dof then meet in one history (copy assignment across dofs); no event
+      shape = std::strtoull(w.at(1).c_str(), nullptr, 10);
     } else if (op == "construct") {
       const M & v = value(w.at(2));
       objs[I(1)]  = std::make_unique<M>(v);
